@@ -211,3 +211,99 @@ func VerifC08Compact() {
 	vCheckSurvivors(l, model, keep2, false)
 	vCover("done")
 }
+
+// VerifC08WithRetention: compaction combined with retention. The log has a
+// message-count limit (symbolic) as well as compaction; Clean first drops whole
+// oldest segments, then compacts what is left. Which suffix retention keeps is
+// C09's subject; here: the retained part starts at a former segment boundary,
+// the newest segment stays, and within the retained part exactly the compaction
+// survivors (computed on the whole history: dropping a prefix never changes
+// which message is the latest for a key) remain, unchanged, readable forwards
+// and backwards; the leader-epoch history still covers what is left; a second
+// Clean changes nothing.
+func VerifC08WithRetention() {
+	dir := vTempDir()
+	n := vParam("msgs", 3)
+	opts := vOpts(dir, 0)
+	seg := vNondetInt64("segbytes")
+	vAssume(seg >= 40)
+	vAssume(seg <= 200)
+	opts.MaxSegmentBytes = seg
+	opts.Compact = true
+	opts.CompactMaxGoroutines = 1
+	lim := vNondetInt64("limit.messages")
+	vAssume(lim >= 1)
+	vAssume(lim <= int64(n)+1)
+	opts.MaxLogMessages = lim
+	l, err := New(opts)
+	vAssert(err == nil, "New succeeds")
+	var model []vStored
+	var prevTs int64
+	epoch := uint64(1)
+	for i := 0; i < n; i++ {
+		k, knil := vField("key", vChoose(3))
+		v := vNondetBytes("val", 1)
+		ts := vNondetInt64("ts")
+		vAssume(ts > 0)
+		vAssume(ts >= prevTs)
+		prevTs = ts
+		epoch += uint64(vChoose(2))
+		_, err := l.Append([]*Message{{Key: k, Value: v, Timestamp: ts, LeaderEpoch: epoch, MagicByte: 2}})
+		vAssert(err == nil, "Append succeeds")
+		model = append(model, vStored{vMsg: vMsg{Offset: int64(i), Key: k, KeyNil: knil, Value: v, Timestamp: ts, Epoch: epoch}})
+	}
+	hw := vNondetInt64("hw")
+	vAssume(hw >= -1)
+	vAssume(hw <= int64(n-1))
+	hw = vConcretize64(hw)
+	l.SetHighWatermark(hw)
+	before := l.(*commitLog).Segments()
+	var bases []int64
+	for _, s := range before {
+		bases = append(bases, s.BaseOffset)
+	}
+	lastBase := bases[len(bases)-1]
+	keep := vSurvivors(model, hw, lastBase)
+	vAssert(l.Clean() == nil, "Clean succeeds")
+	after := l.(*commitLog).Segments()
+	vAssert(len(after) >= 1, "the newest segment is never removed")
+	first := after[0].BaseOffset
+	isBase := false
+	for _, b := range bases {
+		if b == first {
+			isBase = true
+		}
+	}
+	vAssert(isBase, "retention removes whole segments: the retained part starts at a former segment boundary")
+	vAssert(after[len(after)-1].BaseOffset == lastBase, "the newest segment is never removed")
+	if first > 0 {
+		vCover("retention-dropped")
+	}
+	// (cover label) retention removed at least the first segment and compaction
+	// had something to remove beyond it
+	dropped := false
+	for i := range keep {
+		if !keep[i] && len(bases) > 1 && int64(i) >= bases[1] {
+			dropped = true
+		}
+		if int64(i) < first {
+			keep[i] = false
+		}
+	}
+	if dropped && first > 0 {
+		vCover("both")
+	}
+	vAssert(l.NewestOffset() == int64(n-1), "NewestOffset unchanged by cleaning")
+	vCheckSurvivors(l, model, keep, true)
+	// the epoch history still names the epoch of every message that is left
+	for i := range model {
+		if keep[i] {
+			vAssert(l.(*commitLog).leaderEpochCache.LastLeaderEpoch() >= model[i].Epoch, "the leader-epoch history covers the surviving messages")
+		}
+	}
+	vAssert(l.Clean() == nil, "second Clean succeeds")
+	after2 := l.(*commitLog).Segments()
+	vAssert(after2[0].BaseOffset == first, "a repeated Clean removes nothing more")
+	vCheckSurvivors(l, model, keep, false)
+	vCover("done")
+}
